@@ -298,7 +298,13 @@ def main():
             v2 = prove_eq(ck, e.pc, ap.u, 0)
             st = v1[0] if v1[0] != 'proved' else v2[0]
             return (st, 'result is not [scalar]P', v1[1], s)
-        for r in eng.explore(run):
+        try:
+            rs_ = eng.explore(run)
+        except Unsupported as ex:
+            # e.g. the code inspects the coordinates of its point argument, which this obligation keeps abstract
+            unknown.append('ScalarMult len %d: symbolic run not completed (%s)' % (L, str(ex)[:80]))
+            rs_ = []
+        for r in rs_:
             if r[0] != 'proved':
                 if r[0] == 'unknown':
                     unknown.append('ScalarMult len %d' % L)
@@ -620,6 +626,10 @@ func TestVerifReplay(t *testing.T) {
     for sc in shorts[:40]:
         kv = int.from_bytes(bytes(sc), 'big') if sc else 0
         srows.append('{%s, %s},' % (go_bytes(sc) if sc else '[]byte{}', go_bytes(enc(ref.mul(kv % N, Pp)))))
+    grows = []
+    for sc in shorts[:40]:
+        kv = int.from_bytes(bytes(sc), 'big') if sc else 0
+        grows.append('{%s, %s},' % (go_bytes(sc) if sc else '[]byte{}', go_bytes(enc(ref.mul(kv % N)))))
     src = src.rstrip()[:-1] + '''	short := []struct{ k, kP []byte }{
 %s
 	}
@@ -627,7 +637,21 @@ func TestVerifReplay(t *testing.T) {
 		p, err := ScalarMult(P, c.k)
 		if err != nil || !bytes.Equal(p.Bytes(), c.kP) { t.Fatalf("short case %%d: ScalarMult with a %%d-byte scalar differs from [k]P", i, len(c.k)) }
 	}
-}''' % '\n'.join(srows)
+	// special point arguments: the generator itself (Z = 1 and Z != 1) and the point at infinity, with scalars of every length class
+	shortG := []struct{ k, kG []byte }{
+%s
+	}
+	gen := NewSM2Generator()
+	gen2 := NewSM2Point().Add(NewSM2Point().Double(gen), NewSM2Point().Negate(gen))
+	for i, c := range shortG {
+		for j, q := range []*SM2Point{gen, gen2} {
+			p, err := ScalarMult(q, c.k)
+			if err != nil || !bytes.Equal(p.Bytes(), c.kG) { t.Fatalf("short case %%d: ScalarMult(G (form %%d), %%d-byte scalar) differs from [k]G: err=%%v", i, j, len(c.k), err) }
+		}
+		p, err := ScalarMult(NewSM2Point(), c.k)
+		if err != nil || !bytes.Equal(p.Bytes(), []byte{0}) { t.Fatalf("short case %%d: [k]O is not O", i) }
+	}
+}''' % ('\n'.join(srows), '\n'.join(grows))
     okr, outr, pathr = ck.go_test('sm2/internal', src, name='scalarmult', timeout=600)
     if okr is True:
         ck.validated += len(rows)
@@ -646,7 +670,8 @@ func TestVerifReplay(t *testing.T) {
     if not fails:
         ck.record('base_mult', 'proved', 'all four comb schemes: coefficient of G == integer value of k for every 32-byte k; other lengths refused', ck.bounds[0], secs,
                   sample=dict(scheme='6_3_14', claim='forall k in {0..255}^32: sum over the 14x3 windows of 2^(...)*bits + low 4 bits == BE(k)'))
-        ck.record('variable_point_mult', 'proved', 'coefficient of P == integer value of the scalar for all contents, lengths %s' % lens)
+        if not any(str(u).startswith('ScalarMult') for u in unknown):
+            ck.record('variable_point_mult', 'proved', 'coefficient of P == integer value of the scalar for all contents, lengths %s' % lens)
         if not step_bad:
             ck.record('double_scalar_step', 'proved', '%d iteration paths: acc\' = 2*acc + (comb windows at this position)*G + (NAF digit)*P, final iteration adds the low 4 bits; loop index decreases by one' % nsteps)
     ck.finish()
